@@ -1,14 +1,19 @@
 #!/venv/bin/python
 """Run the checks against every seeded change (scratch worktree of /repo HEAD outside /repo and /verif, JXMON_REPO), record which
-checks catch which change.  usage: seed_audit.py <seed dir> [PID,PID...]   (default: the property the seed was written for)
+checks catch which change.  usage: seed_audit.py <seed dir> [PID,PID...] [--only I] [--just PID,PID]   (default: the property the seed was written for)
 Writes <seed dir>/audit_<i>.json. Never touches /repo's working tree."""
 import json, os, subprocess, sys, tempfile, glob
 d = os.path.abspath(sys.argv[1])
-extra = sys.argv[2].split(",") if len(sys.argv) > 2 else []
+args = sys.argv[2:]
+only = args[args.index("--only") + 1] if "--only" in args else None      # patch number
+just = args[args.index("--just") + 1].split(",") if "--just" in args else None  # run exactly these checks, merge into the audit file
+extra = args[0].split(",") if args and not args[0].startswith("--") else []
 for patch in sorted(glob.glob(os.path.join(d, "patch_*.diff"))):
     i = os.path.basename(patch)[6:-5]
+    if only and i != only:
+        continue
     meta = json.load(open(os.path.join(d, f"meta_{i}.json")))
-    pids = [meta["property"]] + [p for p in extra if p != meta["property"]]
+    pids = just or ([meta["property"]] + [p for p in extra if p != meta["property"]])
     wt = tempfile.mkdtemp(prefix="sa_", dir="/tmp"); os.rmdir(wt)
     subprocess.run(["git", "-C", "/repo", "worktree", "add", "-q", "--detach", wt, "HEAD"], check=True)
     res = {"seed": f"{os.path.basename(d)}_{i}", "repo_head": subprocess.run(["git", "-C", "/repo", "rev-parse", "--short", "HEAD"], capture_output=True, text=True).stdout.strip(), "checks": {}}
@@ -33,4 +38,10 @@ for patch in sorted(glob.glob(os.path.join(d, "patch_*.diff"))):
             if sub != "findings":
                 subprocess.run(["rm", "-rf", os.path.join("/verif/replays", sub)])
         subprocess.run(["git", "-C", "/verif", "checkout", "--", "evidence"], capture_output=True)
-    json.dump(res, open(os.path.join(d, f"audit_{i}.json"), "w"), indent=1)
+    af = os.path.join(d, f"audit_{i}.json")
+    if just and os.path.exists(af):
+        prev = json.load(open(af))
+        prev.setdefault("checks", {}).update(res["checks"])
+        prev["repo_head"] = res["repo_head"]
+        res = prev
+    json.dump(res, open(af, "w"), indent=1)
